@@ -16,11 +16,7 @@ func runMutants(repo, verif string, pd *propDef, verbose bool) int { return 0 }
 
 func mutantSweep(repo string, pd *propDef) *MutantResult { return nil }
 
-func ruleGate(c *Ctx) { pending(c, "ruleGate") }
-
 func ruleHandshakeTable(c *Ctx) { pending(c, "ruleHandshakeTable") }
-
-func ruleOrderStart(c *Ctx) { pending(c, "ruleOrderStart") }
 
 func ruleVersionNegotiation(c *Ctx) { pending(c, "ruleVersionNegotiation") }
 
@@ -38,8 +34,6 @@ func ruleMuxSer(c *Ctx) { pending(c, "ruleMuxSer") }
 
 func ruleIDKnock(c *Ctx) { pending(c, "ruleIDKnock") }
 
-func ruleOrderO4(c *Ctx) { pending(c, "ruleOrderO4") }
-
 func ruleLogLevels(c *Ctx) { pending(c, "ruleLogLevels") }
 
 func ruleStdioWiring(c *Ctx) { pending(c, "ruleStdioWiring") }
@@ -53,16 +47,6 @@ func ruleTLSConfig(c *Ctx) { pending(c, "ruleTLSConfig") }
 func ruleTLSPools(c *Ctx) { pending(c, "ruleTLSPools") }
 
 func ruleEnvCertOnly(c *Ctx) { pending(c, "ruleEnvCertOnly") }
-
-func ruleSecureOrder(c *Ctx) { pending(c, "ruleSecureOrder") }
-
-func ruleCmp(c *Ctx) { pending(c, "ruleCmp") }
-
-func ruleSentinelSecure(c *Ctx) { pending(c, "ruleSentinelSecure") }
-
-func ruleGateExcl(c *Ctx) { pending(c, "ruleGateExcl") }
-
-func ruleGateProtoMux(c *Ctx) { pending(c, "ruleGateProtoMux") }
 
 func ruleReattach(c *Ctx) { pending(c, "ruleReattach") }
 
